@@ -85,6 +85,7 @@ fn run(r: &mut Run) -> Result<(), MachineryError> {
     text_space(r, "C07/text-tokens", &[L, LL, LLL, SP, SP2, HY, NL, W, E2], t.pick(3, 6), &g, M_C07, WidthMode::Display, 3)?;
     text_space(r, "C07/text-rich", &[L, SP, HY, TAB, ZW, NB, OP, CL, EM, E2, NL, D], t.pick(3, 5), &g, M_C07, WidthMode::Display, 3)?;
     char_context_space(r, "C07/all-characters-in-context", M_C07, vec![Alg::FirstFit])?;
+    reps::char_pair_space(r, "C07/representative-pairs", M_C07, vec![Alg::FirstFit])?;
     escape_scan_space(r, "C07/escape-grammar-scan", M_C07, vec![Alg::FirstFit])?;
     word_seq_space(r, "C07/word-sequences", M_C07, vec![Alg::FirstFit])?;
     scale::frag_scale(r, "C07/long-periodic", "C07")?;
